@@ -10,7 +10,7 @@ PROPS = {
         "rule": "27 message types x 2 dialects x field classes {0,1,max,max-1,random}, string length classes "
                 "{0,1,2,3..22,255,256,65534,65535}, 0..17 and 65535 walk elements, payloads 0..12K, buffers of "
                 "size-1/size/size+1/size+50; each case runs the real constructor, SetTag, Unpack(pkt++junk), "
-                "PackDir/UnpackDir, InitRread/SetRreadCount. non-trivial = distinct case lines whose implementation "
+                "PackDir/UnpackDir, InitRread/SetRreadCount. also the two-step Rread with a tag set between the steps. non-trivial = distinct case lines whose implementation "
                 "observable is a success (a packet or decoded fields), counted by the harness",
         "modelled": CODEC_MODELLED + ["Fcall.String/fmt are out of scope"],
         "assumptions": ["the Lean model G9.Wire.Go mirrors p9.go/packt.go/packr.go/unpack.go (checked by the "
@@ -44,7 +44,7 @@ PROPS = {
                 "R-message-as-request/Tversion, each with scripted implementation success or error, with and without AuthOps, "
                 "both dialects, msize 24..8216; after every request the real framework's reply, calls into the implementation, "
                 "FidDestroy log and whole fid table (number,user,type,opened,mode,diroffset,refcount via the verif accessor) are "
-                "compared with the model step. non-trivial = distinct histories with at least one non-error reply",
+                "compared with the model step. Every fid shown to the implementation by a request that did not make it valid must be reported destroyed before the reply. non-trivial = distinct histories with at least one non-error reply",
         "modelled": ["modelled, not verified: one request at a time (each answered before the next is sent); the fid map as an "
                      "association list; users as uid numbers (OsUsers)"],
         "assumptions": ["G9.SrvSeq mirrors srv_srv.go/srv_fcall.go/srv_respond.go for sequential histories (checked by the differential run)",
@@ -84,7 +84,7 @@ PROPS = {
         "assumptions": ["G9.Frame mirrors the receive loops of srv_conn.go and clnt_clnt.go (checked by the differential run)"],
     },
     "C14": {
-        "rule": 'real client <-> real Ufs on a scratch tree: 1..4 files open at once with lengths {0,1,iounit-1,iounit,iounit+1,2iounit+-1,random}, msize 128..64K, both dialects, 12 random operations each (Clnt.Read, File.Readn, File.Read, Clnt.Write, File.Written) at boundary and random (offset,count) incl. counts > iounit and offsets past EOF; oracle os.ReadFile; Readn lengths compared with the Lean loop. non-trivial = distinct scenario lines and readn cases',
+        "rule": 'real client <-> real Ufs on a scratch tree: 1..4 files open at once with lengths {0,1,iounit-1,iounit,iounit+1,2iounit+-1,random}, msize 128..64K, both dialects, 12 random operations each (Clnt.Read, File.Readn, File.Read, Clnt.Write, File.Written) at boundary and random (offset,count) incl. counts > iounit and offsets past EOF; oracle os.ReadFile; Readn lengths compared with the Lean loop. Results of Clnt.Read held while ten receive buffers of further replies arrive, compared at the end. non-trivial = distinct scenario lines and readn cases',
         "modelled": ['modelled, not verified: everything the operating system does (Lstat, ReadAt, WriteAt, Readdir, Mkdir, Symlink, Link, Remove, Rename, Truncate, Chmod, Chtimes), os/user, time; sort.SearchInts as first-index->= on a sorted slice'],
         "assumptions": ["G9.UfsLogic mirrors the arithmetic/decision logic of ufs.go and the client file helpers (checked by the differential run)", "runs as the current user; permission-denied outcomes are never required"],
     },
@@ -94,7 +94,7 @@ PROPS = {
         "assumptions": ["G9.UfsLogic mirrors the arithmetic/decision logic of ufs.go and the client file helpers (checked by the differential run)", "runs as the current user; permission-denied outcomes are never required"],
     },
     "C16": {
-        "rule": "random trees (nesting 2..40, names 1..255 bytes with spaces and non-ASCII, files, directories, symlinks, a hard link, a chain deep enough for several Twalks): stat of every object in both dialects against os.Lstat (type bits, length, permission bits, mtime, name, qid path = inode, distinct for distinct files); walks of 0..16 elements of which a prefix exists, in place and to a new fid, with the fids' targets checked afterwards; walk outcome compared with the Lean model. non-trivial = distinct walks that resolved",
+        "rule": "random trees (nesting 2..40, names 1..255 bytes with spaces and non-ASCII, files, directories, symlinks, a hard link, a chain deep enough for several Twalks): stat of every object in both dialects against os.Lstat (type bits, length, permission bits, mtime, name, qid path = inode, distinct for distinct files); walks of 0..16 elements of which a prefix exists, in place and to a new fid, with the fids' targets checked afterwards; walk outcome compared with the Lean model. After a partial in-place walk the fid is walked from again. non-trivial = distinct walks that resolved",
         "modelled": ['modelled, not verified: everything the operating system does (Lstat, ReadAt, WriteAt, Readdir, Mkdir, Symlink, Link, Remove, Rename, Truncate, Chmod, Chtimes), os/user, time; sort.SearchInts as first-index->= on a sorted slice'],
         "assumptions": ["G9.UfsLogic mirrors the arithmetic/decision logic of ufs.go and the client file helpers (checked by the differential run)", "runs as the current user; permission-denied outcomes are never required"],
     },
@@ -114,7 +114,7 @@ PROPS = {
                 "and number, mismatched R}, the reply stream cut at up to 12 random points with delays; every call must return its own payload / "
                 "the server's error / an error; tags seen by the peer pairwise distinct; 70 000 consecutive calls on one connection; the "
                 "observed schedule is replayed through the Lean client model and its tag accounting compared with the client's. "
-                "non-trivial = distinct scenarios in which all calls returned",
+                "Several pipelined reads under one Tag, answered in arrival order, each completion the oldest one's; the pending list walked forwards and backwards after every step of random call/reply/free interleavings (reqlist). non-trivial = distinct scenarios in which all calls returned",
         "modelled": ["modelled, not verified: Go channels as FIFO lists; the Tag (pipelined) interface is exercised by the library's own tests only"],
         "assumptions": ["G9.Clnt mirrors ReqAlloc/ReqFree/Rpc/Rpcnb/recv (checked by the differential run on the accounting)"],
     },
@@ -136,7 +136,7 @@ PROPS = {
                 "schedule points; rolling windows that reuse a tag the moment its reply arrives while the answered request is held "
                 "between queueing and unlinking; a Tflush waiting on an executing request while the writer is held up by a "
                 "slow reader (the reply precedes the Rflush). Oracle on the decoded wire: one frame per request with its tag, matching type or "
-                "Rerror, content equal to what the implementation produced, no other frame. non-trivial = distinct scenarios",
+                "Rerror, content equal to what the implementation produced, no other frame. Extra answers are sometimes errors (RespondError on an answered request); an Rerror on the wire for a request the implementation answered is a failure. non-trivial = distinct scenarios",
         "modelled": ["modelled, not verified: goroutines as program counters; each event is one lock-protected region or one channel "
                      "operation of srv_conn.go/srv_srv.go/srv_fcall.go; Go mutexes, channels (FIFO) and the scheduler are trusted; "
                      "what a reply contains is M3's business (C04/C05/C12); the model allows nested Respond calls to interleave with "
@@ -152,7 +152,7 @@ PROPS = {
                 "after the reply, unknown tag, flush of a flush, 2..3 flushes of one request, and pairwise orderings of 6 target x 7 "
                 "flusher schedule points in both directions. Oracle: one Rflush per Tflush; a reply to the target precedes it; a target "
                 "without reply never reaches the implementation afterwards and leaves no fid/open state (probes). "
-                "non-trivial = distinct scenarios",
+                "In half of the read/stat/wstat scenarios the reply-buffer pool is first filled with buffers that carried the target's kind of reply. non-trivial = distinct scenarios",
         "modelled": ["modelled, not verified: goroutines as program counters; each event is one lock-protected region or one channel "
                      "operation of srv_conn.go/srv_srv.go/srv_fcall.go; Go mutexes, channels (FIFO) and the scheduler are trusted; "
                      "what a reply contains is M3's business (C04/C05/C12); the model allows nested Respond calls to interleave with "
@@ -166,7 +166,7 @@ PROPS = {
         "rule": "2..10 requests with 1..6 of them parked in the implementation on 1..2 connections, Maxpend in {0,1,8}: the others, a "
                 "late request and a request on the other connection must be answered while they stay parked; then every release "
                 "order. Shared-tag groups of 2..8 mixed with 0..3 other tags (gated, asynchronous or free-running): executed one at a "
-                "time in arrival order, answered in that order. non-trivial = distinct scenarios",
+                "time in arrival order, answered in that order. A third of the shared-tag groups contain a Tflush (of an unused tag) as a member, which waits its turn. non-trivial = distinct scenarios",
         "modelled": ["modelled, not verified: goroutines as program counters; each event is one lock-protected region or one channel "
                      "operation of srv_conn.go/srv_srv.go/srv_fcall.go; Go mutexes, channels (FIFO) and the scheduler are trusted; "
                      "what a reply contains is M3's business (C04/C05/C12); the model allows nested Respond calls to interleave with "
@@ -187,7 +187,7 @@ PROPS = {
                 "dropped the last reference with the number reused afterwards, a second request creating a fid number that an "
                 "executing request is creating, bursts of pipelined walks/stats/clunks; every region of "
                 "the fid table is logged from inside its lock and replayed on G9.FidLife; at the end the model state must be quiescent "
-                "and FidDestroy seen exactly once per fid object. non-trivial = distinct scenarios",
+                "and FidDestroy seen exactly once per fid object. The Ufs scenario is preceded by requests that fail inside the file server (hard link or create onto a taken name, open of a removed file). non-trivial = distinct scenarios",
         "modelled": ["modelled, not verified: goroutines as program counters; each event is one lock-protected region or one channel "
                      "operation of srv_conn.go/srv_srv.go/srv_fcall.go; Go mutexes, channels (FIFO) and the scheduler are trusted; "
                      "what a reply contains is M3's business (C04/C05/C12); the model allows nested Respond calls to interleave with "
@@ -224,7 +224,7 @@ PROPS = {
                 "NUL, empty and up to 64 KiB, lying walk counts, stat records with lying sizes, self-flushes, pipelined dependent requests; "
                 "byte-level mutations of a valid 15-request session; raw random bytes; all written in random segments. The server runs in "
                 "the harness's process: a panic in one of its goroutines ends the process and the journal names the session. After every "
-                "session a bystander connection and a fresh one must be served. non-trivial = distinct sessions",
+                "session a bystander connection and a fresh one must be served. Sessions that reuse the tags of outstanding requests and flush them (requests cancelled before they start, with recycled reply buffers). non-trivial = distinct sessions",
         "modelled": ["modelled, not verified: only the decoder, the directory window and the framework's request rules carry theorems; nil "
                      "dereferences, type assertions, the os package and concurrent use of one fid are reached by the sessions only"],
         "assumptions": ["the same mirrors as C02, C04, C05, C12, C15 (each tied by its own correspondence)"],
